@@ -120,7 +120,7 @@ class ExceptionFlow:
                 ty = norm_type(e.get('t', '?'))
                 out.append((ty, e.get('ln'), '%s:%s throw %s' % (f.file, e.get('ln'), ty), None, e))
             elif k in ('call', 'ctor'):
-                n = cname(e)
+                n = cname(e).replace('std::__cxx11::', 'std::')     # libstdc++'s inline ABI namespace
                 if n in STD_THROWERS:
                     for ty in STD_THROWERS[n]:
                         out.append((ty, e.get('ln'), '%s:%s %s' % (f.file, e.get('ln'), n), None, e))
